@@ -480,6 +480,10 @@ def _eq(left: object, right: object) -> bool:  # noqa: PLR0911
 
 
 def _lt(left: object, right: object) -> bool:
+    # Booleans are not ordered, despite bool being a subclass of int in Python.
+    if isinstance(left, bool) or isinstance(right, bool):
+        return False
+
     if isinstance(left, str) and isinstance(right, str):
         return left < right
 
